@@ -116,7 +116,7 @@ func main() {
 		fmt.Fprintln(os.Stderr, "load:", err)
 		os.Exit(1)
 	}
-	var hookAims, sessionRule, mapRanges, envUses, volatileSets, fatalSites, signerRows, checkRuns rows
+	var hookAims, sessionRule, mapRanges, envUses, volatileSets, fatalSites, signerRows, checkRuns, checkStateDB rows
 	nerr := 0
 	for _, pkg := range pkgs {
 		for _, e := range pkg.Errors {
@@ -376,6 +376,65 @@ func main() {
 			}
 		}
 	}
+	// ---- uses of the shared EVM state object (ctx.StateDB) on the mempool path: functions
+	// reachable inside their package from a Validate / ProcessCheck method
+	for _, pkg := range pkgs {
+		short := strings.TrimPrefix(pkg.PkgPath, "github.com/Oneledger/protocol/")
+		if !strings.HasPrefix(short, "action") && !strings.HasPrefix(short, "external_apps/") {
+			continue
+		}
+		bodies := map[string]*ast.FuncDecl{}
+		var roots []string
+		for _, f := range pkg.Syntax {
+			if strings.HasSuffix(pkg.Fset.Position(f.Pos()).Filename, "_test.go") {
+				continue
+			}
+			for _, d := range f.Decls {
+				if fd, ok := d.(*ast.FuncDecl); ok && fd.Body != nil {
+					name := fd.Name.Name
+					if fd.Recv != nil && len(fd.Recv.List) > 0 {
+						name = strings.TrimPrefix(render(pkg.Fset, fd.Recv.List[0].Type), "*") + "." + name
+						if fd.Name.Name == "Validate" || fd.Name.Name == "ProcessCheck" {
+							roots = append(roots, name)
+						}
+					}
+					bodies[name] = fd
+					if fd.Recv == nil {
+						bodies[fd.Name.Name] = fd
+					}
+				}
+			}
+		}
+		seen := map[string]bool{}
+		var visit func(n string)
+		visit = func(n string) {
+			if seen[n] || bodies[n] == nil {
+				return
+			}
+			seen[n] = true
+			ast.Inspect(bodies[n].Body, func(x ast.Node) bool {
+				switch t := x.(type) {
+				case *ast.SelectorExpr:
+					if in, ok := t.X.(*ast.SelectorExpr); ok && in.Sel.Name == "StateDB" {
+						checkStateDB = append(checkStateDB, []string{short + "." + n, "StateDB." + t.Sel.Name})
+					}
+				case *ast.CallExpr:
+					for _, a := range t.Args {
+						if se, ok := a.(*ast.SelectorExpr); ok && se.Sel.Name == "StateDB" {
+							checkStateDB = append(checkStateDB, []string{short + "." + n, "StateDB passed to " + render(pkg.Fset, t.Fun)})
+						}
+					}
+					if id, ok := t.Fun.(*ast.Ident); ok {
+						visit(id.Name)
+					}
+				}
+				return true
+			})
+		}
+		for _, r := range roots {
+			visit(r)
+		}
+	}
 	if nerr > 0 {
 		fmt.Fprintf(os.Stderr, "facts: %d package errors (type information may be incomplete)\n", nerr)
 	}
@@ -388,6 +447,7 @@ func main() {
 	sortRows(fatalSites)
 	sortRows(signerRows)
 	sortRows(checkRuns)
+	sortRows(checkStateDB)
 	sortRows(sessionRule)
 	// hookAims keep source order per function; sort functions by name (stable)
 	sort.SliceStable(hookAims, func(i, j int) bool { return hookAims[i][0] < hookAims[j][0] })
@@ -412,6 +472,7 @@ func main() {
 	sb.WriteString(fatalSites.lean("fatalSites", "Use", use))
 	sb.WriteString(signerRows.lean("signerRows", "Use", use))
 	sb.WriteString(checkRuns.lean("checkRuns", "Use", use))
+	sb.WriteString(checkStateDB.lean("checkStateDB", "Use", use))
 	// option-copy setters of InitChain vs start-up, normalised to "<store>.<setter>"
 	norm := func(fn string) rows {
 		var r rows
